@@ -34,8 +34,9 @@ fn modelf(class: &str, what: String) -> Option<Fail> {
     Some(("model", class.to_string(), what))
 }
 fn short(s: &str) -> String {
-    if s.len() > 160 {
-        format!("{}…({} chars)", &s[..160], s.len())
+    // (cut at a character boundary: the text may hold anything the implementation returned)
+    if s.chars().count() > 160 {
+        format!("{}…({} bytes)", s.chars().take(160).collect::<String>(), s.len())
     } else {
         s.to_string()
     }
@@ -850,6 +851,101 @@ enum Case {
     /// an iTXt chunk obtained from a decoder (compressed payload `raw` deflated), `compressed` cleared,
     /// written again
     Inflated { raw: Vec<u8> },
+    /// an animation written partly or wholly through `StreamWriter`s, with the stream writer's setters
+    Stream(StreamCase),
+}
+
+/// one image written through a stream writer: its data is written up to `split` (>= 1 except for the
+/// first image of a session), then the setters are called (they apply to the NEXT frame), then the rest
+#[derive(Clone, Debug, PartialEq)]
+struct SFrame {
+    ops: Vec<Op>,
+    split_permille: u32,
+}
+
+#[derive(Clone, Debug, PartialEq)]
+enum Seg {
+    /// `Writer` setters, then `Writer::write_image_data`
+    Whole { ops: Vec<Op> },
+    /// `Writer` setters, then ONE `StreamWriter` (`stream_writer_with_size`, or `into_stream_writer_with_size`
+    /// for the last segment when `owned_last`) writing these images
+    Stream { pre_ops: Vec<Op>, frames: Vec<SFrame>, buf: usize },
+}
+
+#[derive(Clone, Debug, PartialEq)]
+struct StreamCase {
+    w: u32,
+    h: u32,
+    depth: u8,
+    color: u8,
+    frames: u32,
+    plays: u32,
+    sep_def: bool,
+    enc_ops: Vec<Op>,
+    segs: Vec<Seg>,
+    owned_last: bool,
+}
+
+impl StreamCase {
+    fn json(&self) -> J {
+        J::obj()
+            .set("w", J::i(self.w as u64))
+            .set("h", J::i(self.h as u64))
+            .set("depth", J::i(self.depth))
+            .set("color", J::i(self.color))
+            .set("frames", J::i(self.frames as u64))
+            .set("plays", J::i(self.plays as u64))
+            .set("sep_def", J::Bool(self.sep_def))
+            .set("owned_last", J::Bool(self.owned_last))
+            .set("enc_ops", J::s(&ops_str(&self.enc_ops)))
+            .set(
+                "segs",
+                J::Arr(
+                    self.segs
+                        .iter()
+                        .map(|g| match g {
+                            Seg::Whole { ops } => J::obj().set("kind", J::s("whole")).set("ops", J::s(&ops_str(ops))),
+                            Seg::Stream { pre_ops, frames, buf } => J::obj()
+                                .set("kind", J::s("stream"))
+                                .set("pre_ops", J::s(&ops_str(pre_ops)))
+                                .set("buf", J::i(*buf as u64))
+                                .set("frames", J::Arr(frames.iter().map(|f| J::obj().set("ops", J::s(&ops_str(&f.ops))).set("split", J::i(f.split_permille as u64))).collect())),
+                        })
+                        .collect(),
+                ),
+            )
+    }
+    fn from_json(j: &J) -> Option<StreamCase> {
+        let n = |k: &str| -> Option<i64> { j.get(k)?.as_i64() };
+        let mut segs = vec![];
+        for g in j.get("segs")?.as_arr()? {
+            segs.push(match g.get("kind")?.as_str()? {
+                "whole" => Seg::Whole { ops: ops_parse(g.get("ops")?.as_str()?)? },
+                _ => Seg::Stream {
+                    pre_ops: ops_parse(g.get("pre_ops")?.as_str()?)?,
+                    buf: g.get("buf")?.as_i64()? as usize,
+                    frames: g
+                        .get("frames")?
+                        .as_arr()?
+                        .iter()
+                        .map(|f| Some(SFrame { ops: ops_parse(f.get("ops")?.as_str()?)?, split_permille: f.get("split")?.as_i64()? as u32 }))
+                        .collect::<Option<Vec<_>>>()?,
+                },
+            });
+        }
+        Some(StreamCase {
+            w: n("w")? as u32,
+            h: n("h")? as u32,
+            depth: n("depth")? as u8,
+            color: n("color")? as u8,
+            frames: n("frames")? as u32,
+            plays: n("plays")? as u32,
+            sep_def: jbool(j, "sep_def")?,
+            owned_last: jbool(j, "owned_last")?,
+            enc_ops: ops_parse(j.get("enc_ops")?.as_str()?)?,
+            segs,
+        })
+    }
 }
 
 impl Case {
@@ -863,6 +959,7 @@ impl Case {
                 .set("bad", J::i(*bad as u64))
                 .set("what", J::s(what)),
             Case::Inflated { raw } => J::obj().set("op", J::s("inflated")).set("raw", J::s(&hex(raw))),
+            Case::Stream(c) => J::obj().set("op", J::s("stream")).set("cfg", c.json()),
         }
     }
     fn from_json(j: &J) -> Option<Case> {
@@ -875,6 +972,7 @@ impl Case {
                 what: j.get("what")?.as_str()?.to_string(),
             }),
             "inflated" => Some(Case::Inflated { raw: unhex(j.get("raw")?.as_str()?)? }),
+            "stream" => Some(Case::Stream(StreamCase::from_json(j.get("cfg")?)?)),
             _ => None,
         }
     }
@@ -912,6 +1010,8 @@ struct Prepared {
     refusal: Option<Result<(Option<(String, String)>, Vec<u8>, usize), String>>,
     /// for `Inflated`: result of writing, body written, decode result of the file
     inflated: Option<(Result<Vec<u8>, String>, Option<Result<(), String>>)>,
+    /// for `Stream`: the file and the result of every setter call in call order
+    stream: Option<Result<Result<(Vec<u8>, Vec<bool>), (String, String)>, String>>,
 }
 
 const HEADER_END: [&[u8; 4]; 2] = [b"fcTL", b"IDAT"];
@@ -992,7 +1092,7 @@ fn prepare_header(cfg: &Cfg, rng: &mut Rng) -> Prepared {
             }
         }
     }
-    Prepared { enc: Some(enc), dec, lines, refusal: None, inflated: None }
+    Prepared { enc: Some(enc), dec, lines, refusal: None, inflated: None, stream: None }
 }
 
 // ---------------------------------------------------------------------------------------------
@@ -1261,13 +1361,19 @@ fn judge_header(cfg: &Cfg, p: &Prepared, ans: &[String]) -> Option<Fail> {
         let base = 3 + cfg.tail.len();
         let mut nops = a.enc_ops.len();
         for k in 0..images {
-            let line = ans.get(base + k)?;
-            let (rs, rest) = line.split_once(';')?;
+            let line = match ans.get(base + k) {
+                Some(l) => l,
+                None => return modelf("protocol", format!("model answered {} lines", ans.len())),
+            };
+            let (rs, rest) = match line.split_once(';') {
+                Some(x) => x,
+                None => return modelf("protocol", format!("fcops answer {}", short(line))),
+            };
             let rs: Vec<&str> = if rs.is_empty() { vec![] } else { rs.split(',').collect() };
             let mine = e.op_results.get(k).cloned().unwrap_or_default();
             let tail_rs: Vec<bool> = rs[nops.min(rs.len())..].iter().map(|x| *x == "ok").collect();
             nops += mine.len();
-            let (fcs, inv) = rest.split_once(" inv=")?;
+            let (fcs, inv) = rest.split_once(" inv=").unwrap_or((rest, "?"));
             let mfc: Vec<u32> = fcs.split(',').filter_map(|x| x.parse().ok()).collect();
             let want = {
                 let mut fc: Fc = [0, cfg.w, cfg.h, 0, 0, 1, 30, 0, 0];
@@ -1390,7 +1496,7 @@ fn expected_refusal(t: &Txt, head: bool) -> Option<&'static str> {
 fn prepare_refuse(cfg: &Cfg, in_head: bool, bad: usize, rng: &mut Rng) -> Prepared {
     let refusal = run_refusal(cfg, in_head, bad, rng);
     let lines = if in_head { vec![format!("c17 header {}", cfg.model_tokens())] } else { cfg.tail.get(bad).map(|t| vec![tail_enc_line(t)]).unwrap_or_default() };
-    Prepared { enc: None, dec: None, lines, refusal: Some(refusal), inflated: None }
+    Prepared { enc: None, dec: None, lines, refusal: Some(refusal), inflated: None, stream: None }
 }
 
 fn judge_refuse(cfg: &Cfg, in_head: bool, bad: usize, what: &str, p: &Prepared, ans: &[String]) -> Option<Fail> {
@@ -1448,7 +1554,10 @@ fn judge_refuse(cfg: &Cfg, in_head: bool, bad: usize, what: &str, p: &Prepared, 
         if mc != want {
             return modelf("model/refusal/class", format!("model {} ; crate {}", mc, class));
         }
-        let mt: Vec<String> = parse_chunks_tok(mchunks)?.iter().map(|c| String::from_utf8_lossy(&c.0).to_string()).collect();
+        let mt: Vec<String> = match parse_chunks_tok(mchunks) {
+            Some(v) => v.iter().map(|c| String::from_utf8_lossy(&c.0).to_string()).collect(),
+            None => return modelf("protocol", format!("header answer {}", short(&ans[0]))),
+        };
         let mut rt: Vec<String> = all.iter().map(|c| String::from_utf8_lossy(&c.0).to_string()).collect();
         if call == "write_header" {
             if rt.last().map(|s| s.as_str()) == Some("IEND") {
@@ -1535,7 +1644,7 @@ fn prepare_inflated(raw: &[u8]) -> Prepared {
         Ok(x) => x,
         Err(p) => (Err(format!("PANIC {}", p)), None),
     };
-    Prepared { enc: None, dec: None, lines: vec![format!("c17 enc itxt 6b 0 - - c:{}", hex(&z))], refusal: None, inflated: Some(inflated) }
+    Prepared { enc: None, dec: None, lines: vec![format!("c17 enc itxt 6b 0 - - c:{}", hex(&z))], refusal: None, inflated: Some(inflated), stream: None }
 }
 
 fn judge_inflated(raw: &[u8], p: &Prepared, ans: &[String]) -> Option<Fail> {
@@ -1588,6 +1697,357 @@ fn judge_inflated(raw: &[u8], p: &Prepared, ans: &[String]) -> Option<Fail> {
         return modelf("model/itxt-inflated", format!("model {} ; crate {}", short(&ans[0]), short(&imp)));
     }
     None
+}
+
+// ---------------------------------------------------------------------------------------------
+// animations through StreamWriter
+// ---------------------------------------------------------------------------------------------
+
+fn apply_stream_op<W: Write>(sw: &mut png::StreamWriter<W>, op: &Op) -> Result<(), png::EncodingError> {
+    match op {
+        Op::Dim(x, y) => sw.set_frame_dimension(*x, *y),
+        Op::Pos(x, y) => sw.set_frame_position(*x, *y),
+        Op::RDim => sw.reset_frame_dimension(),
+        Op::RPos => sw.reset_frame_position(),
+        Op::Delay(n, d) => sw.set_frame_delay(*n, *d),
+        Op::Blend(b) => sw.set_blend_op(if *b == 1 { png::BlendOp::Over } else { png::BlendOp::Source }),
+        Op::Dispose(o) => sw.set_dispose_op(dispose_of(*o)),
+    }
+}
+
+fn apply_writer_op<W: Write>(w: &mut png::Writer<W>, op: &Op) -> Result<(), png::EncodingError> {
+    match op {
+        Op::Dim(x, y) => w.set_frame_dimension(*x, *y),
+        Op::Pos(x, y) => w.set_frame_position(*x, *y),
+        Op::RDim => w.reset_frame_dimension(),
+        Op::RPos => w.reset_frame_position(),
+        Op::Delay(n, d) => w.set_frame_delay(*n, *d),
+        Op::Blend(b) => w.set_blend_op(if *b == 1 { png::BlendOp::Over } else { png::BlendOp::Source }),
+        Op::Dispose(o) => w.set_dispose_op(dispose_of(*o)),
+    }
+}
+
+/// the images of one session; `wfc` / the copy follow what the calls ANSWERED (so that the data sizes
+/// fit what the crate expects); the documented semantics are computed separately in `stream_reference`
+fn run_session<W: Write>(
+    sw: &mut png::StreamWriter<W>,
+    c: &StreamCase,
+    frames: &[SFrame],
+    wfc: &mut Fc,
+    results: &mut Vec<bool>,
+    rng: &mut Rng,
+    image_no: &mut usize,
+) -> Result<(), (String, String)> {
+    let mut copy = *wfc;
+    for (j, f) in frames.iter().enumerate() {
+        if j > 0 {
+            // the first byte of this image makes the stream writer take over its copy
+            let seq = wfc[0];
+            *wfc = copy;
+            wfc[0] = seq;
+        }
+        let data = rng.bytes(image_len(c.color, c.depth, wfc[1], wfc[2]));
+        let mut split = (data.len() as u64 * f.split_permille as u64 / 1000) as usize;
+        if j > 0 {
+            split = split.max(1);
+        }
+        let split = split.min(data.len());
+        sw.write_all(&data[..split]).map_err(|e| (format!("StreamWriter::write, image #{}", image_no), e.to_string()))?;
+        for op in &f.ops {
+            let r = apply_stream_op(sw, op);
+            if r.is_ok() {
+                ref_apply(c.w, c.h, &mut copy, op);
+            }
+            results.push(r.is_ok());
+        }
+        sw.write_all(&data[split..]).map_err(|e| (format!("StreamWriter::write, image #{}", image_no), e.to_string()))?;
+        *image_no += 1;
+    }
+    Ok(())
+}
+
+fn encode_stream(c: &StreamCase, rng: &mut Rng) -> Result<Result<(Vec<u8>, Vec<bool>), (String, String)>, String> {
+    let c = c.clone();
+    let mut rng = rng.clone();
+    guarded(move || -> Result<(Vec<u8>, Vec<bool>), (String, String)> {
+        let sink = SharedSink::default();
+        let mut cfg = Cfg::plain(c.w, c.h, c.depth, c.color);
+        if c.color == 3 {
+            cfg.palette = Some(vec![0x40; 3 << c.depth.min(8)]);
+        }
+        cfg.anim = Some(Anim { frames: c.frames, plays: c.plays, sep_def: c.sep_def, enc_ops: c.enc_ops.clone(), per_image: vec![] });
+        let enc = build_encoder(&cfg, sink.clone())?;
+        let mut w = enc.write_header().map_err(|e| ("write_header".to_string(), enc_class(&e)))?;
+        let mut wfc: Fc = [0, c.w, c.h, 0, 0, 1, 30, 0, 0];
+        for op in &c.enc_ops {
+            ref_apply(c.w, c.h, &mut wfc, op);
+        }
+        let mut results = vec![];
+        let mut image_no = 0usize;
+        let nseg = c.segs.len();
+        let mut owned_done = false;
+        let mut segs = c.segs.iter().enumerate();
+        // (the writer is moved into the last stream writer when `owned_last`)
+        let mut writer = Some(w);
+        for (k, seg) in &mut segs {
+            let w = match writer.as_mut() {
+                Some(w) => w,
+                None => break,
+            };
+            match seg {
+                Seg::Whole { ops } => {
+                    for op in ops {
+                        let r = apply_writer_op(w, op);
+                        if r.is_ok() {
+                            ref_apply(c.w, c.h, &mut wfc, op);
+                        }
+                        results.push(r.is_ok());
+                    }
+                    let data = rng.bytes(image_len(c.color, c.depth, wfc[1], wfc[2]));
+                    w.write_image_data(&data).map_err(|e| (format!("write_image_data, image #{}", image_no), enc_class(&e)))?;
+                    image_no += 1;
+                }
+                Seg::Stream { pre_ops, frames, buf } => {
+                    for op in pre_ops {
+                        let r = apply_writer_op(w, op);
+                        if r.is_ok() {
+                            ref_apply(c.w, c.h, &mut wfc, op);
+                        }
+                        results.push(r.is_ok());
+                    }
+                    if c.owned_last && k + 1 == nseg {
+                        let w = writer.take().unwrap_or_else(|| unreachable!());
+                        let mut sw = w.into_stream_writer_with_size(*buf).map_err(|e| ("into_stream_writer".to_string(), enc_class(&e)))?;
+                        run_session(&mut sw, &c, frames, &mut wfc, &mut results, &mut rng, &mut image_no)?;
+                        sw.finish().map_err(|e| ("StreamWriter::finish (owned)".to_string(), enc_class(&e)))?;
+                        owned_done = true;
+                    } else {
+                        let mut sw = w.stream_writer_with_size(*buf).map_err(|e| ("stream_writer".to_string(), enc_class(&e)))?;
+                        run_session(&mut sw, &c, frames, &mut wfc, &mut results, &mut rng, &mut image_no)?;
+                        sw.finish().map_err(|e| ("StreamWriter::finish".to_string(), enc_class(&e)))?;
+                    }
+                }
+            }
+        }
+        if !owned_done {
+            if let Some(w) = writer.take() {
+                w.finish().map_err(|e| ("finish".to_string(), enc_class(&e)))?;
+            }
+        }
+        Ok((sink.bytes(), results))
+    })
+}
+
+/// The documented semantics, independent of the crate's answers and of the model: expected frame
+/// control of every image (`None` for the separate default image), expected verdict of every setter
+/// call in call order, and the event list for `c17 fcstream`.
+fn stream_reference(c: &StreamCase) -> (Vec<Option<Fc>>, Vec<bool>, String) {
+    let mut wfc: Fc = [0, c.w, c.h, 0, 0, 1, 30, 0, 0];
+    let mut evs: Vec<String> = vec![];
+    for op in &c.enc_ops {
+        ref_apply(c.w, c.h, &mut wfc, op);
+        evs.push(format!("w/{}", op.tok()));
+    }
+    let mut frames = vec![];
+    let mut verdicts = vec![];
+    // (the `Encoder` setters cannot fail on an animated encoder and are not in `verdicts`)
+    let mut first = true;
+    for seg in &c.segs {
+        match seg {
+            Seg::Whole { ops } => {
+                for op in ops {
+                    verdicts.push(ref_apply(c.w, c.h, &mut wfc, op));
+                    evs.push(format!("w/{}", op.tok()));
+                }
+                let skip = first && c.sep_def;
+                frames.push(if skip { None } else { Some(wfc) });
+                evs.push(if skip { "img0".into() } else { "img".into() });
+                first = false;
+            }
+            Seg::Stream { pre_ops, frames: fs, .. } => {
+                for op in pre_ops {
+                    verdicts.push(ref_apply(c.w, c.h, &mut wfc, op));
+                    evs.push(format!("w/{}", op.tok()));
+                }
+                let mut copy = wfc;
+                for (j, f) in fs.iter().enumerate() {
+                    if j == 0 {
+                        let skip = first && c.sep_def;
+                        frames.push(if skip { None } else { Some(wfc) });
+                        evs.push(if skip { "open0".into() } else { "open".into() });
+                    } else {
+                        let seq = wfc[0];
+                        wfc = copy;
+                        wfc[0] = seq;
+                        frames.push(Some(wfc));
+                        evs.push("next".into());
+                    }
+                    first = false;
+                    for op in &f.ops {
+                        verdicts.push(ref_apply(c.w, c.h, &mut copy, op));
+                        evs.push(format!("s/{}", op.tok()));
+                    }
+                }
+                evs.push("close".into());
+            }
+        }
+    }
+    (frames, verdicts, evs.join(";"))
+}
+
+fn prepare_stream(c: &StreamCase, rng: &mut Rng) -> Prepared {
+    let enc = encode_stream(c, rng);
+    let (_, _, evs) = stream_reference(c);
+    let mut lines = vec![format!("c17 fcstream {} {} {}", c.w, c.h, evs)];
+    let mut dec = None;
+    if let Ok(Ok((file, _))) = &enc {
+        dec = Some(decode(file));
+        for (t, b) in chunks_of(file) {
+            if &t == b"fcTL" && b.len() == 26 {
+                let u = |i: usize| u32::from_be_bytes([b[i], b[i + 1], b[i + 2], b[i + 3]]);
+                let h = |i: usize| u16::from_be_bytes([b[i], b[i + 1]]) as u32;
+                lines.push(format!("c17 enc fctl {},{},{},{},{},{},{},{},{}", u(0), u(4), u(8), u(12), u(16), h(20), h(22), b[24], b[25]));
+            }
+        }
+    }
+    Prepared { enc: None, dec, lines, refusal: None, inflated: None, stream: Some(enc) }
+}
+
+fn judge_stream(c: &StreamCase, p: &Prepared, ans: &[String]) -> Option<Fail> {
+    let (file, results) = match p.stream.as_ref() {
+        None => return modelf("harness/prepare", "no stream result".into()),
+        Some(Err(pn)) => return oracle("panic/encoder", format!("encoder panicked: {}", pn)),
+        Some(Ok(Err((call, class)))) => return oracle("roundtrip/stream/encode-refused", format!("{} failed on a legal animation: {}", call, class)),
+        Some(Ok(Ok(x))) => x,
+    };
+    let d = match p.dec.as_ref() {
+        None => return modelf("harness/prepare", "no decode result".into()),
+        Some(Err(pn)) => return oracle("panic/decoder", format!("decoder panicked: {}", pn)),
+        Some(Ok(Err(m))) => return oracle("roundtrip/stream/undecodable", format!("the decoder refuses the stream writer's file: {}", m)),
+        Some(Ok(Ok(d))) => d,
+    };
+    let (mut want_frames, want_verdicts, _) = stream_reference(c);
+    if *results != want_verdicts {
+        return oracle("roundtrip/stream/fctl-setter", format!("setter calls answered {:?}, documented semantics give {:?}", results, want_verdicts));
+    }
+    if d.fin.actl != Some((c.frames, c.plays)) {
+        return oracle("roundtrip/stream/actl", format!("animation control read back as {:?}", d.fin.actl));
+    }
+    // sequence numbers by the APNG rule
+    let mut seq = 0u32;
+    let mut fseqs = vec![];
+    let all = chunks_of(file);
+    for (t, _) in &all {
+        if t == b"fcTL" {
+            fseqs.push(seq);
+        }
+        if t == b"fcTL" || t == b"fdAT" {
+            seq += 1;
+        }
+    }
+    let mut it = fseqs.into_iter();
+    for f in want_frames.iter_mut().flatten() {
+        f[0] = it.next().unwrap_or(u32::MAX);
+    }
+    if d.frames != want_frames {
+        let names = ["sequence_number", "width", "height", "x_offset", "y_offset", "delay_num", "delay_den", "dispose_op", "blend_op"];
+        let mut which = String::new();
+        for (k, (g, w)) in d.frames.iter().zip(want_frames.iter()).enumerate() {
+            if let (Some(g), Some(w)) = (g, w) {
+                if let Some(i) = (0..9).find(|&i| g[i] != w[i]) {
+                    which = format!("/{}", names[i]);
+                    note("stream frame that differs", &format!("image {}", k.min(5)));
+                    break;
+                }
+            } else if g != w {
+                which = "/presence".into();
+                break;
+            }
+        }
+        return oracle(&format!("roundtrip/stream/fctl{}", which), format!("frame controls read back {:?}, expected {:?}", d.frames, want_frames));
+    }
+    // model
+    let line = match ans.first() {
+        Some(l) => l,
+        None => return modelf("protocol", "model answered nothing".into()),
+    };
+    let (rs, fcs) = match line.split_once(';') {
+        Some(x) => x,
+        None => return modelf("protocol", format!("fcstream answer {}", short(line))),
+    };
+    let mres: Vec<bool> = if rs.is_empty() { vec![] } else { rs.split(',').map(|x| x == "ok").collect() };
+    // the model also lists the `Encoder`-level calls, which always succeed
+    let skip = c.enc_ops.len().min(mres.len());
+    if mres[skip..] != results[..] {
+        return modelf("model/fcstream/results", format!("model {} ; crate {:?}", short(rs), results));
+    }
+    let mfcs: Vec<Vec<u32>> = if fcs.is_empty() { vec![] } else { fcs.split('|').map(|f| f.split(',').filter_map(|x| x.parse().ok()).collect()).collect() };
+    let wf: Vec<Fc> = want_frames.iter().flatten().copied().collect();
+    if mfcs.len() != wf.len() || mfcs.iter().zip(wf.iter()).any(|(m, w)| m.len() != 9 || m[1..] != w[1..]) {
+        return modelf("model/fcstream/frames", format!("model {} ; frame controls written {:?}", short(fcs), wf));
+    }
+    let fbodies: Vec<&Vec<u8>> = all.iter().filter(|(t, _)| t == b"fcTL").map(|(_, b)| b).collect();
+    for (k, b) in fbodies.iter().enumerate() {
+        if ans.get(1 + k).map(|s| s.as_str()) != Some(&hex(b)) {
+            return modelf("model/enc/fcTL", format!("fcTL #{} real {} model {:?}", k, hex(b), ans.get(1 + k)));
+        }
+    }
+    None
+}
+
+fn gen_stream_ops(rng: &mut Rng, cw: u32, ch: u32, geometry: bool) -> Vec<Op> {
+    // more calls, and every setter, than `gen_ops`
+    let n = rng.usize(0, 5);
+    let mut v = gen_ops(rng, cw, ch, geometry);
+    v.truncate(n);
+    if rng.chance(1, 2) {
+        v.push(match rng.below(if geometry { 7 } else { 3 }) {
+            0 => Op::Dispose(rng.below(3) as u8),
+            1 => Op::Blend(rng.below(2) as u8),
+            2 => Op::Delay(gen_u16(rng), gen_u16(rng)),
+            3 => Op::Dim(rng.range(1, cw as u64) as u32, rng.range(1, ch as u64) as u32),
+            4 => Op::Pos(rng.range(0, cw as u64 - 1) as u32, rng.range(0, ch as u64 - 1) as u32),
+            5 => Op::RDim,
+            _ => Op::RPos,
+        });
+    }
+    v
+}
+
+fn gen_stream_case(rng: &mut Rng) -> StreamCase {
+    let (color, depth) = *rng.pick(&PAIRS);
+    let (w, h) = (rng.range(1, 6) as u32, rng.range(1, 5) as u32);
+    let frames = rng.range(2, 5) as u32;
+    let sep_def = rng.chance(1, 4);
+    let images = frames as usize + sep_def as usize;
+    let mut segs = vec![];
+    let mut left = images;
+    let mode = rng.below(3); // 0: one stream writer for everything, 1: mixed, 2: mostly streams
+    while left > 0 {
+        let first = left == images;
+        let stream = match mode {
+            0 => true,
+            1 => rng.bool(),
+            _ => rng.chance(3, 4),
+        };
+        if stream {
+            let n = if mode == 0 { left } else { rng.usize(1, left) };
+            let mut fs = vec![];
+            for j in 0..n {
+                // setters after the start of the session's last image would have no frame to apply to
+                let ops = if j + 1 == n { vec![] } else { gen_stream_ops(rng, w, h, true) };
+                fs.push(SFrame { ops, split_permille: *rng.pick(&[0u32, 1, 500, 999, 1000, 1000]) });
+            }
+            // geometry setters of the `Writer` only once an image has been written
+            segs.push(Seg::Stream { pre_ops: gen_stream_ops(rng, w, h, !first), frames: fs, buf: *rng.pick(&[5usize, 6, 7, 16, 64, 4096]) });
+            left -= n;
+        } else {
+            segs.push(Seg::Whole { ops: gen_stream_ops(rng, w, h, !first) });
+            left -= 1;
+        }
+    }
+    let owned_last = matches!(segs.last(), Some(Seg::Stream { .. })) && rng.bool();
+    StreamCase { w, h, depth, color, frames, plays: if rng.bool() { 0 } else { gen_u32(rng) }, sep_def, enc_ops: gen_ops(rng, w, h, false), segs, owned_last }
 }
 
 // ---------------------------------------------------------------------------------------------
@@ -1966,6 +2426,10 @@ fn gen_cases(ctx: &mut Ctx) -> Vec<Case> {
         gen_anim(&mut rng, &mut c);
         cases.push(Case::Header(c));
     }
+    // --- animations through StreamWriter(s), with the stream writer's setters between frames ---
+    for _ in 0..ctx.n(600, 6000) {
+        cases.push(Case::Stream(gen_stream_case(&mut rng)));
+    }
     // --- refusals ---
     let whats = ["kw-empty", "kw-80", "kw-long", "kw-non-latin1", "text-non-latin1", "lang-non-ascii", "kw-nul", "lang-nul", "tk-nul"];
     for round in 0..ctx.n(24, 200) {
@@ -2011,6 +2475,7 @@ fn prepare(c: &Case, rng: &mut Rng) -> Prepared {
         Case::Header(cfg) => prepare_header(cfg, rng),
         Case::Refuse { cfg, in_head, bad, .. } => prepare_refuse(cfg, *in_head, *bad, rng),
         Case::Inflated { raw } => prepare_inflated(raw),
+        Case::Stream(c) => prepare_stream(c, rng),
     }
 }
 
@@ -2019,6 +2484,7 @@ fn judge(c: &Case, p: &Prepared, ans: &[String]) -> Option<Fail> {
         Case::Header(cfg) => judge_header(cfg, p, ans),
         Case::Refuse { cfg, in_head, bad, what } => judge_refuse(cfg, *in_head, *bad, what, p, ans),
         Case::Inflated { raw } => judge_inflated(raw, p, ans),
+        Case::Stream(c) => judge_stream(c, p, ans),
     }
 }
 
@@ -2153,6 +2619,26 @@ fn record(ctx: &mut Ctx, c: &Case) {
             ctx.rep.count("case", "refusal");
             ctx.rep.count("refusal", &format!("{}/{}", what, if *in_head { "add_chunk+write_header" } else { "write_text_chunk" }));
         }
+        Case::Stream(c) => {
+            ctx.rep.count("case", "stream-animation");
+            ctx.rep.count("stream frames/sep_def", &format!("{}/{}", c.frames, c.sep_def));
+            let nstream = c.segs.iter().filter(|g| matches!(g, Seg::Stream { .. })).count();
+            ctx.rep.count("stream writers per file / whole images", &format!("{}/{}", nstream, c.segs.len() - nstream));
+            ctx.rep.count("last stream writer", if c.owned_last { "into_stream_writer" } else { "stream_writer (borrowed)" });
+            for g in &c.segs {
+                if let Seg::Stream { frames, buf, .. } = g {
+                    ctx.rep.count("stream chunk buffer", &buf.to_string());
+                    for f in frames {
+                        for op in &f.ops {
+                            ctx.rep.count("stream setter", op.tok().split('/').next().unwrap_or(""));
+                        }
+                        if !f.ops.is_empty() {
+                            ctx.rep.count("stream setters called", match f.split_permille { 0 => "before the image's data", 1000 => "after the image's last byte", _ => "inside the image's data" });
+                        }
+                    }
+                }
+            }
+        }
         Case::Inflated { raw } => {
             ctx.rep.count("case", "itxt-inflated");
             ctx.rep.count("inflated payload", if std::str::from_utf8(raw).is_ok() { "valid UTF-8" } else { "not UTF-8" });
@@ -2170,6 +2656,8 @@ pub fn run(ctx: &mut Ctx) {
         sequences of the seven frame setters (in and out of bounds)) -> real Encoder -> bytes -> real Decoder (read_info, all frames, finish) -> accessors \
         vs the values supplied; chunk list and bodies vs `c17 header`; Lean parsers on the real chunks (`c17 decode`) and `c17 expect` vs the real Info; \
         the model's header read by the real decoder; refusals (9 kinds of unrepresentable text x head/tail): error class, sink unchanged / no chunk of the item; \
+        animations of 2..5 frames written through StreamWriter(s) (stream_writer / into_stream_writer, chunk buffers 5..4096, mixed with whole-image frames) \
+        with all seven StreamWriter setters called before / inside / after an image's data: every frame's fcTL read back, all nine fields, vs the documented semantics and `c17 fcstream`; \
         iTXt with a compressed payload and the flag cleared. non-trivial = at least one metadata item beyond IHDR; distinct = hash of the whole case"
         .into();
     let pre = model::ask_one(&["c17 consts".to_string()]);
@@ -2218,7 +2706,11 @@ pub fn run(ctx: &mut Ctx) {
         ctx.rep.eval(c.nontrivial(), c.key());
         ctx.rep.model_compared += 1;
         record(ctx, c);
-        let verdict = judge(c, &prepared[k], &answers[start..start + n]);
+        // a defect of the harness itself must not take the run down: it is reported with the case
+        let verdict = match guarded(|| judge(c, &prepared[k], &answers[start..start + n])) {
+            Ok(v) => v,
+            Err(p) => modelf("harness/judge-panic", format!("the harness panicked while judging: {}", p)),
+        };
         let notes: Vec<(String, String)> = NOTES.with(|n| n.borrow_mut().drain(..).collect());
         for (h, key) in notes {
             ctx.rep.count(&h, &key);
